@@ -123,3 +123,11 @@ func Parked() int {
 	defer mu.Unlock()
 	return len(parked)
 }
+
+// Gen is the current execution generation (incremented by Reset). A harness goroutine
+// that belongs to an abandoned execution must not touch the pollers of a later one.
+func Gen() uint64 {
+	mu.Lock()
+	defer mu.Unlock()
+	return gen
+}
